@@ -21,6 +21,13 @@ class EmbG(Packet):
 class EmbL(Packet):
     __bisturi__ = {'generate_for_pack': False, 'generate_for_unpack': False}
     sub = Ref(LenL, embed=True)
+class RefG(Packet):
+    tag = Int(1, default=7)
+    sub = Ref(LenG(length=1, a=b'z'))
+class RefL(Packet):
+    __bisturi__ = {'generate_for_pack': False, 'generate_for_unpack': False}
+    tag = Int(1, default=7)
+    sub = Ref(LenL(length=1, a=b'z'))
 class PlaG(Packet):
     tag = Int(1, default=7)
     length = Int(1).describe(AutoLength('a')).at(2)
@@ -46,7 +53,8 @@ class FunL(Packet):
 
 def run(mod, h):
     cls = getattr(mod, h['cls'])
-    islen = h['cls'].startswith(('Len', 'Emb', 'Pla'))
+    islen = h['cls'].startswith(('Len', 'Emb', 'Pla', 'Ref'))
+    nested = h['cls'].startswith('Ref')       # the described field lives in a referenced packet whose prototype INSTANCE pins it
     placed = h['cls'].startswith('Pla')       # the described field is positioned: tag, one skipped byte, then the field
     aligned = h['cls'] == 'FunA'              # class-wide alignment 2: x at 0, t at 2
     name = 'length' if islen else 'x'
@@ -64,13 +72,21 @@ def run(mod, h):
                     kw['t'] = op[1]
                 if op[2] is not None:
                     kw[name] = op[2]
-                p = cls(**kw)
+                if nested:
+                    top = cls(sub=getattr(mod, 'LenG' if h['cls'] == 'RefG' else 'LenL')(**kw))
+                    p = top.sub
+                else:
+                    p = cls(**kw)
             elif k == 'unpack':
                 # parsed value op[2] for the described field, tracked value op[1]
                 raw = bytes([op[2]]) + (b'q' * op[2] if islen else ((b'.' if aligned else b'') + bytes([op[1]])))
                 if placed:
                     raw = b'\x07.' + raw
-                p = cls.unpack(raw)
+                if nested:
+                    top = cls.unpack(b'\x07' + raw)
+                    p = top.sub
+                else:
+                    p = cls.unpack(raw)
             elif k == 'set_tracked':
                 if islen:
                     p.a = b'y' * op[1]
@@ -81,7 +97,7 @@ def run(mod, h):
             elif k == 'del':
                 delattr(p, name)
             elif k == 'pack':
-                w = p.pack()[2 if placed else 0]
+                w = top.pack()[1] if nested else p.pack()[2 if placed else 0]
             out.append(['ok', getattr(p, name), w, hasattr(p, '__dict__')])
         except Exception as e:
             out.append(['exc', type(e).__name__, str(e)[:80]])
